@@ -75,6 +75,16 @@ CHECKS = {
         technique="TLA+ bit-vector arithmetic on byte limbs (BV.tla, self-checked by TLC against integer arithmetic) and an operational semantics of func/arith/cf/scf (Machine.tla) executed by TLC as reference for results observed from the real interpreter",
         text="Every arith op and cmpi predicate the interpreter implements is run by the real interpreter on every operand tuple for widths 1-4 and on boundary/random tuples for 8..64 and index; generated multi-op programs with scf.if / scf.for / cf branches and loops are run on boundary inputs; TLC executes the same programs under Machine.tla (one state per executed operation) and every result is compared as a bit pattern; results outside the type's signless range are flagged.",
         note="Trusted: BV.tla / Machine.tla as MLIR semantics (BVCheck.tla compares BV with integer arithmetic for widths <=15). Floating point is not modelled (no floats in TLC). Ops the interpreter does not implement are listed in the evidence, not judged."),
+    "C14": dict(
+        category="translation_validation", design_ref="DESIGN.md §2.2, §3.8, §4 C14",
+        technique="translation validation under a TLA+ operational semantics: programs before/after the real passes are executed by TLC (Machine.tla over BV.tla) on every input of a small domain; AgreeClause (results, effect log, refinement w.r.t. undefined behaviour) checked per run",
+        text="Generated func/arith/cf/scf programs (all integer arith ops, constants at boundary values, select, scf.if/for, cf diamonds/loops, branch-condition reuse shapes, external calls as effects) are run through canonicalize, cse, constant-fold-interp, test-constant-folding and dce; every (program, pass) pair that changed is executed before and after by TLC on all inputs for widths <=4 and boundary/random inputs otherwise; a pass that raises on a valid program is a violation.",
+        note="Trusted: Machine.tla/BV.tla (self-checked) as reference semantics; the serialiser harness/serialize.py (tied to the interpreter by C15). Floating point is not modelled. Open findings: test-constant-folding asserts; folds of unsigned cmpi inherited from the interpreter."),
+    "C16": dict(
+        category="translation_validation", design_ref="DESIGN.md §2.2, §3.8, §4 C16",
+        technique="translation validation under a TLA+ operational semantics (Machine.tla gives scf.if/for/while and cf their own semantics); before/after programs of the real lowering / loop passes executed by TLC",
+        text="Generated programs with nested scf.for/scf.if, an exhaustive family of constant-bound loops (lb -2..3, ub -1..5, step 1..3), loop nests with used/unused induction variables and effects in the body, and range-folding shapes with constant and symbolic factors are run through convert-scf-to-cf, scf-for-loop-range-folding, scf-for-loop-flatten, licm and control-flow-hoist; TLC executes before/after on boundary/random inputs and compares results and the ordered effect log.",
+        note="Trusted: Machine.tla. lower-affine, scf-for-loop-unroll and frontend-desymrefy are not exercised (no affine/symref program generator). One open finding (range folding with non-positive factor)."),
 }
 
 NOT_APPLICABLE = {
